@@ -673,6 +673,9 @@ pub struct Node {
   pub list_exports: Vec<String>,
   /// references from its public signature
   pub api_refs: BTreeSet<usize>,
+  /// references from positions the transform drops but the dependency analysis visits
+  /// (operands of inferable initialisers / defaults / arrow bodies of unannotated bindings)
+  pub maybe_refs: BTreeSet<usize>,
 }
 
 #[derive(Clone, Debug, Default)]
@@ -703,6 +706,8 @@ pub struct Gen<'a> {
   /// current declaration's module / collected API refs
   cur_module: usize,
   cur_refs: BTreeSet<usize>,
+  cur_maybe: BTreeSet<usize>,
+  maybe_mode: bool,
   /// when false, generated types/expressions record no references (non-API positions)
   recording: bool,
   imports: Vec<BTreeMap<usize, bool>>, // module -> node -> used as value
@@ -748,6 +753,8 @@ impl<'a> Gen<'a> {
   fn use_node(&mut self, i: usize, as_value: bool) -> String {
     if self.recording {
       self.cur_refs.insert(i);
+    } else if self.maybe_mode {
+      self.cur_maybe.insert(i);
     }
     let n = &self.nodes[i];
     if n.module != self.cur_module {
@@ -908,6 +915,14 @@ impl<'a> Gen<'a> {
 
   /// an expression whose type the simple inference rules give (literals, `as T`, templates, Symbol())
   pub fn inferable(&mut self) -> Expr {
+    let saved_maybe = self.maybe_mode;
+    self.maybe_mode = self.maybe_mode || self.recording;
+    let e = self.inferable_inner();
+    self.maybe_mode = saved_maybe;
+    e
+  }
+
+  fn inferable_inner(&mut self) -> Expr {
     match self.rng.below(12) {
       0..=4 => self.lit(),
       5 => {
@@ -1426,8 +1441,10 @@ impl<'a> Gen<'a> {
     let mut params = self.params(1, public && !overloaded);
     // parameter properties
     for p in params.iter_mut() {
-      if matches!(p.pat, Pat::Ident(_)) && self.rng.chance(25) {
-        let a: &'static str = *self.rng.pick(&["public", "private", "protected", "", "readonly"]);
+      if !overloaded && matches!(p.pat, Pat::Ident(_)) && self.rng.chance(25) {
+        // (a private constructor loses its parameters but keeps the properties: only `private`
+        // ones, whose type is erased, are generated there)
+        let a: &'static str = if public { *self.rng.pick(&["public", "private", "protected", "", "readonly"]) } else { "private" };
         if a == "readonly" {
           p.prop = Some(("", true));
         } else if a.is_empty() {
@@ -1502,6 +1519,20 @@ impl<'a> Gen<'a> {
         }
         for k in 0..n {
           members.push(self.member(k, is_abstract));
+        }
+        // member keys are distinct (a duplicate member is a TS error, and the tracer would take the
+        // second of two same-named members with bodies for an overload implementation)
+        let mut used: BTreeSet<String> = BTreeSet::new();
+        for (k, m) in members.iter_mut().enumerate() {
+          let key = match m {
+            Member::Method { key, .. } => key,
+            Member::Prop { key, .. } => key,
+            _ => continue,
+          };
+          if !used.insert(p_key(key)) {
+            *key = Key::Ident(format!("u{}", k));
+            used.insert(p_key(key));
+          }
         }
         let tparams = if self.rng.chance(15) { vec!["T".to_string()] } else { vec![] };
         let decorator = self.rng.chance(8);
@@ -1609,6 +1640,8 @@ pub fn gen_package(rng: &mut Rng, adversarial: bool) -> Package {
     n_modules,
     cur_module: 0,
     cur_refs: BTreeSet::new(),
+    cur_maybe: BTreeSet::new(),
+    maybe_mode: false,
     recording: true,
     imports: vec![BTreeMap::new(); n_modules],
     feats: BTreeMap::new(),
@@ -1644,7 +1677,7 @@ pub fn gen_package(rng: &mut Rng, adversarial: bool) -> Package {
       if export_default {
         has_default = true;
       }
-      g.nodes.push(Node { module: m, name, kind, export_kw: export_kw || export_default, export_default, list_exports: vec![], api_refs: BTreeSet::new() });
+      g.nodes.push(Node { module: m, name, kind, export_kw: export_kw || export_default, export_default, list_exports: vec![], api_refs: BTreeSet::new(), maybe_refs: BTreeSet::new() });
       per_module[m].push(g.nodes.len() - 1);
     }
   }
@@ -1654,9 +1687,11 @@ pub fn gen_package(rng: &mut Rng, adversarial: bool) -> Package {
     for &idx in &per_module[m] {
       g.cur_module = m;
       g.cur_refs = BTreeSet::new();
+      g.cur_maybe = BTreeSet::new();
       g.recording = true;
       let d = g.decl(idx, 0);
       g.nodes[idx].api_refs = std::mem::take(&mut g.cur_refs);
+      g.nodes[idx].maybe_refs = std::mem::take(&mut g.cur_maybe);
       let ex = if g.nodes[idx].export_default { 2 } else if g.nodes[idx].export_kw { 1 } else { 0 };
       modules[m].items.push(Item::Decl(ex, d));
       // statements that are not declarations
@@ -1730,7 +1765,8 @@ pub fn gen_package(rng: &mut Rng, adversarial: bool) -> Package {
           }
         }
       };
-      let refs = std::mem::take(&mut g.cur_refs);
+      let mut refs = std::mem::take(&mut g.cur_refs);
+      refs.extend(std::mem::take(&mut g.cur_maybe));
       g.extra_roots.push((m, refs));
       modules[m].items.push(Item::ExportDefaultExpr(e));
       g.feat("export-default-expr");
@@ -1853,6 +1889,7 @@ pub fn gen_package(rng: &mut Rng, adversarial: bool) -> Package {
       work.extend(refs.iter().copied());
     }
   }
+  let roots = work.clone();
   while let Some(i) = work.pop() {
     if public.insert(i) {
       for r in g.nodes[i].api_refs.clone() {
@@ -1860,10 +1897,21 @@ pub fn gen_package(rng: &mut Rng, adversarial: bool) -> Package {
       }
     }
   }
+  // what the real tracer may legitimately retain: also reached through initialiser operands that
+  // the transform drops (the dependency analysis of an unannotated binding visits its whole initialiser)
+  let mut justified: BTreeSet<usize> = BTreeSet::new();
+  let mut work = roots;
+  while let Some(i) = work.pop() {
+    if justified.insert(i) {
+      for r in g.nodes[i].api_refs.iter().chain(g.nodes[i].maybe_refs.iter()) {
+        work.push(*r);
+      }
+    }
+  }
   let mut intent = Intent { expect_diagnostic: g.expect_diag, unpredictable: g.unpredictable, ..Default::default() };
   for m in 0..n_modules {
     let path = MOD_PATHS[m].to_string();
-    intent.must_drop.insert(path.clone(), per_module[m].iter().filter(|i| !public.contains(i)).map(|i| g.nodes[*i].name.clone()).collect());
+    intent.must_drop.insert(path.clone(), per_module[m].iter().filter(|i| !justified.contains(i)).map(|i| g.nodes[*i].name.clone()).collect());
     intent.public.insert(path, per_module[m].iter().filter(|i| public.contains(i)).map(|i| g.nodes[*i].name.clone()).collect());
   }
   let dropped: usize = intent.must_drop.values().map(|v| v.len()).sum();
